@@ -75,6 +75,13 @@ class G:
         toks = set(re.findall(r"[A-Za-z_]\w*", text))
         return bool(toks & set(avail)) or bool(toks & {"t", "time"})
 
+    @staticmethod
+    def zero_branch(text):
+        """A Conditional with a literal 0 branch: as a divisor / under a negative power it is 1/0 on that branch
+        (sympy folds it to zoo when intermediates are substituted) - kept out of those positions."""
+        import re
+        return "Conditional(" in text and re.search(r",\s*-?0(\.0)?\s*[,)]", text) is not None
+
     def var_expr(self, d, avail, tries=6):
         """An expression that depends on at least one model quantity (never constant-only): arguments of
         domain-restricted functions, bases of fractional powers, operands of comparisons."""
@@ -97,6 +104,10 @@ class G:
             op = r.choice(["+", "-", "*", "/", "+", "-", "*"])
             a, pa = self.expr(d - 1, avail)
             b, pb = self.expr(d - 1, avail)
+            if op == "-" and a == b:
+                # x - x is identically zero (sympy folds it when intermediates are substituted): log / division by it
+                # elsewhere makes the model undefined for every input
+                b, pb = self.lit(nonzero=True), 4
             if op in "+-":
                 if r.random() < 0.25:
                     a = f"({a})"
@@ -110,6 +121,8 @@ class G:
                 b = self.lit(nonzero=True)
             if a.strip("()") in ("0", "0.0"):
                 a = self.lit(nonzero=True)
+            if op == "/" and self.zero_branch(b):
+                b, pb = (self.name(avail) if avail else self.lit(nonzero=True)), 4
             if pa < 1:
                 a = f"({a})"
             if pb < 1 or (op == "/" and pb <= 1):
@@ -123,6 +136,13 @@ class G:
         if k < 0.62:
             e = r.choice(["2", "3", "2", "-1", "-2", "0.5", "2.0", "(1/2)", "(1/3)", "1.5", "4"] if prof != "poly" else ["2", "3", "2", "-1", "-2", "4"])
             a, pa = self.var_expr(d - 1, avail) if e not in ("2", "3", "4", "2.0") else self.expr(d - 1, avail)
+            if e.lstrip("(").startswith("-"):
+                for _ in range(6):
+                    if not self.zero_branch(a):
+                        break
+                    a, pa = self.var_expr(d - 1, avail)
+                else:
+                    a, pa = (self.name(avail) if avail else "t"), 4
             if pa < 4:
                 a = f"({a})"
             # unary minus in front of a power binds looser than ** : keep both spellings
